@@ -288,7 +288,15 @@ func VPH_pipelineBatchFill() {
 	ctx := context.Background()
 	repo := &Repository{gitDir: ".", gitBin: "git"}
 	target := []int{4096, 65536}[vp_Choice("boundary", 2)]
-	k := []int{2, 4, 5, 8}[vp_Choice("objects", 4)]
+	k := []int{1, 2, 4, 5, 8}[vp_Choice("objects", 5)] // (1: a single object of about the boundary's size)
+	kind := []string{"blob", "commit", "tag"}[vp_Choice("kind", 3)]
+	body := func(n int) string {
+		// commits and tags look like objects: a header block, a blank line, a long message
+		if kind != "blob" && n >= 8 {
+			return "key v\n\n" + strings.Repeat("x", n-7)
+		}
+		return strings.Repeat("x", n)
+	}
 	delta := vp_Choice("delta", 3) - 1 // the last object ends at boundary-1, boundary, boundary+1
 	each := target/k - 1               // k objects of (each+1) bytes fill the target when k divides it
 	var sizes []int
@@ -298,11 +306,14 @@ func VPH_pipelineBatchFill() {
 		sum += each + 1
 	}
 	last := target - sum - 1 + delta
+	if k == 1 {
+		last += 2 // a single object of boundary, boundary+1, boundary+2 bytes: strictly above 4 KiB / 64 KiB
+	}
 	sizes = append(sizes, last, 3) // and one more small object afterwards
 	var sb strings.Builder
 	for i, n := range sizes {
-		sb.WriteString(vpHexID(byte(0x50+i)) + " blob " + vpItoa(n) + "\n")
-		sb.WriteString(strings.Repeat("x", n))
+		sb.WriteString(vpHexID(byte(0x50+i)) + " " + kind + " " + vpItoa(n) + "\n")
+		sb.WriteString(body(n))
 		sb.WriteString("\n")
 	}
 	iter, err := repo.NewBatchObjectIter(ctx)
@@ -321,8 +332,8 @@ func VPH_pipelineBatchFill() {
 	for i, n := range sizes {
 		o, ok, _ := iter.Next()
 		vp_Assert(ok && o.OID == vpOIDOf(vpHexID(byte(0x50+i))) && len(o.Data) == n && uint64(o.ObjectSize) == uint64(n), "every object is delivered with exactly its bytes")
-		if ok && n > 0 {
-			vp_Assert(o.Data[0] == 'x' && o.Data[n-1] == 'x', "contents intact")
+		if ok && n > 0 && len(o.Data) == n {
+			vp_Assert(string(o.Data) == body(n), "contents intact, however large the object (its size is measured from them)")
 		}
 	}
 	_, more, _ := iter.Next()
